@@ -27,6 +27,7 @@ type fn struct {
 	Name     string   `json:"name"`
 	Recv     string   `json:"recv,omitempty"`
 	Params   []string `json:"params"`
+	PNames   []string `json:"pnames"`
 	Results  []string `json:"results"`
 	Variadic bool     `json:"variadic"`
 }
@@ -42,7 +43,11 @@ func tup(t *types.Tuple) []string {
 }
 
 func sig(name, recv string, s *types.Signature) fn {
-	return fn{Name: name, Recv: recv, Params: tup(s.Params()), Results: tup(s.Results()), Variadic: s.Variadic()}
+	pn := []string{}
+	for i := 0; i < s.Params().Len(); i++ {
+		pn = append(pn, s.Params().At(i).Name())
+	}
+	return fn{Name: name, Recv: recv, Params: tup(s.Params()), PNames: pn, Results: tup(s.Results()), Variadic: s.Variadic()}
 }
 
 func main() {
